@@ -393,7 +393,7 @@ func (c *EvalCtx) index(x, i CV) CV {
 		switch u := x.Type.Underlying().(type) {
 		case *types.Slice:
 			h := c.w().elemHeap(u.Elem())
-			return c.typed(sel(sel(c.ex.heapTerm(c.st, h), sArr(x.T)), add(sOff(x.T), i.T)), u.Elem())
+			return c.typed(sel(sel(c.ex.heapTerm(c.st, h), sArr(x.T)), idxT(sOff(x.T), i.T)), u.Elem())
 		case *types.Map:
 			h := c.w().heap("M_val", "(Array Int (Array Str Val))")
 			return c.typed(sel(sel(c.ex.heapTerm(c.st, h), x.T), i.T), u.Elem())
